@@ -473,6 +473,9 @@ CHECKS = {
             {"name": "ice", "pkg": "./internal/ice", "run": "^TestVerifC09",
              "quick": {"checks": 12, "shards": 8, "timeout": 900},
              "thorough": {"checks": 120, "shards": 16, "timeout": 3400}},
+            {"name": "srv", "pkg": "./internal/verifsrv", "run": "^TestVerifC09", "binaries": ["thruserv", "thru"],
+             "quick": {"checks": 3, "shards": 4, "timeout": 900},
+             "thorough": {"checks": 14, "shards": 8, "timeout": 3400}},
         ],
     },
 }
@@ -494,6 +497,12 @@ _ADDENDA = {
     "C07": ("Escapes are also padded with neutral segments past the 1024-byte and 64 KiB length limits. Unit 'app-root' (package app): "
             "hostile root names of a manifest offer against hasResumeData/clearResumeData in a sandbox with metadata directories "
             "planted at every level (same snapshot oracle)."),
+    "C09": ("Unit 'e2e' decides the clause about BOTH peers with the real binaries: thruserv, `thru host` and `thru join` (built from the tree "
+            "under test) run as processes on this machine, whose every local address is a candidate, so the sender probes the receiver "
+            "under several addresses in parallel while the receiver sees the connections arrive in its own order; generated trees, "
+            "--total-connections 1/2/4, one or two receivers in turn. Oracle: `thru join` exits 0 within 60 s and its output directory "
+            "holds exactly the hosted tree (authentication and transfer started on one and the same connection). Non-trivial only on a "
+            "host with at least two usable local addresses."),
     "C11": ("Unit 'blocked-writer': 24 enumerated ways of leaving while the connection's writer is blocked in its send function (slow "
             "path of remove). Unit 'stress': real concurrency without the scheduler (join/reconnect/leave/close-session against "
             "send/broadcast/list for 1.5 s, thorough 20 s); a recovered panic, a hang or left-over state is a violation - it reaches "
